@@ -23,7 +23,7 @@ type c11Case struct {
 	Opts     gwOpts `json:"gateway"`
 	Kind     string `json:"transport"`
 	Phase    int    `json:"phase"`     // steps completed before the end: 0 none, 1 handshake, 2 tunnel, 3 auth, 4 channel, 5 channel+data
-	InFlight string `json:"in_flight"` // none | client | host | both
+	InFlight string `json:"in_flight"` // none | client | host | both | host-hung-up (the host closed its connection before the client ends the tunnel) | host-hung-up-client (... and the client still sends)
 	Ending   string `json:"ending"`    // close | out-of-order | unframeable | fin | rst | fin-out | rst-out | last-chunk | second-channel (a further CHANNEL_CREATE, then the client drops)
 	DupIn    bool   `json:"duplicate_in,omitempty"` // legacy: a second RDG_IN_DATA with the same connection id arrives while the tunnel is live
 	Stalled  bool   `json:"stalled_client,omitempty"` // websocket: the client stops reading while the host keeps sending, then ends the tunnel without eliciting a response
@@ -38,7 +38,7 @@ func genC11(t *rapid.T) c11Case {
 		c.Phase = rapid.IntRange(4, 5).Draw(t, "deepPhase")
 	}
 	if c.Phase >= 4 {
-		c.InFlight = rapid.SampledFrom([]string{"none", "client", "host", "both"}).Draw(t, "inflight")
+		c.InFlight = rapid.SampledFrom([]string{"none", "client", "host", "both", "host-hung-up", "host-hung-up-client"}).Draw(t, "inflight")
 	} else {
 		c.InFlight = "none"
 	}
@@ -233,7 +233,12 @@ func runC11(c c11Case) *Violation {
 		} else {
 			close(hostDone)
 		}
-		if c.InFlight == "client" || c.InFlight == "both" {
+		if strings.HasPrefix(c.InFlight, "host-hung-up") && host != nil {
+			// the remote desktop host ends its side first (a session that logged off); the client ends the tunnel afterwards
+			host.Close()
+			time.Sleep(30 * time.Millisecond)
+		}
+		if c.InFlight == "client" || c.InFlight == "both" || c.InFlight == "host-hung-up-client" {
 			for i := 0; i < 5; i++ {
 				conn.Send(tsgu.Data(streamBytes(9, i*2000, 2000)))
 			}
